@@ -17,11 +17,11 @@ RULE = ("use forms U (each paired with its manual inlining): string macro as lis
         "suffix), as key with a times body, as $deref field value; list macro (5 instruction-level bodies) as list item, as "
         "'@m:' key, inside $or/$not/$and_any_order; operand-level list macro; parameterised macro with 1 and 2 formals "
         "called with leaf, sub-tree and falsy (YAML int 0) arguments, with equal and with different arguments; a macro whose body uses "
-        "another macro (user listed first); a macro used inside a macro argument; scale family: a chain of 5 macros each using the next, one macro used 8 times, a parameterised macro called 8 times with different arguments, 12 macros in one rule. Rules: EVERY sequence of length 1..K over "
+        "another macro (user listed first); a macro used inside a macro argument; three parameterised macros where a body calls another with a constant argument and formals share a name; a shared-library family: one macro file left unchanged on disk, used by a sequence of rules that define the macro it refers to differently; scale family: a chain of 5 macros each using the next, one macro used 8 times, a parameterised macro called 8 times with different arguments, 12 macros in one rule. Rules: EVERY sequence of length 1..K over "
         "U and 2 plain items (K=2 quick, 3 thorough on a reduced U), so one macro is used 1..K times. For each rule: EVERY "
         "admissible order of the definition list and EVERY split of the definitions between the rule file and 1..2 extra "
         "macro files (both orders of the files). Oracle: Yaml2Regex(...).produce_regex() of the macro rule equals that of "
-        "the inlined rule; if the texts differ both are run on every listing of length <= 2 over a 6-instruction alphabet "
+        "the inlined rule; if the texts differ both are run on every listing of length <= 3 over a 13-instruction alphabet "
         "and must agree; produce_regex() called twice on one object gives the same text (definitions not altered by use). "
         "Non-trivial = every (rule, order, split) case containing at least one macro use.")
 ASSUMPTIONS = ["macro names are not contained in one another; a macro is listed before the macros its body refers to (property scope)",
@@ -30,7 +30,7 @@ LEVEL_TEXT = ("All rules of the stated use-form grammar x all admissible orders 
               "and compared with the manually inlined rule. Exhaustive within bounds.")
 LEVEL_NOTE = "Trusted: the (use form, inlined form) pairs written in this module; no reference expander is needed."
 
-ALPHA = [("mov", ["%rax", "%rbx"]), ("movl", ["%rbx", "%rax"]), ("push", ["%rax"]), ("ret", []), ("xor", ["%rax", "%rax"]),
+ALPHA = [("xor", ["%eax", "%eax"]), ("mov", ["%rsi", "%rdi"]), ("mov", ["$0x0", "%edx"]), ("mov", ["$0x0", "%eax"]), ("mov", ["%rax", "%rbx"]), ("movl", ["%rbx", "%rax"]), ("push", ["%rax"]), ("ret", []), ("xor", ["%rax", "%rax"]),
          ("mov", ["(%rax)", "%rcx"]), ("mov", ["%rax", "$0x0"]), ("mov", ["$0x0", "%rbx"]), ("mov", ["$0x0", "%rax"])]
 
 M_S = {"name": "@s", "pattern": "mov"}
@@ -130,6 +130,14 @@ def scale_rules():
     out.append([("@c1", inl, chain, cons), ("@c3", {"$or": [{"$or": ["push", "ret"]}, "ret"]}, chain, cons)])
     out.append([("@s", "mov", [M_S], [])] * 8)
     out.append([({"@p2": None, "a1": r, "a2": "rbx"}, {"mov": [r, "rbx"]}, [M_P2], []) for r in ("rax", "rcx", "rdx", "rsi", "rdi", "r8", "r9", "r10")])
+    # three parameterised macros; the second's body calls the third with a CONSTANT argument, and the third shares its formal
+    # name with the first (argument values must not travel from one expansion to another)
+    m_clear = {"name": "@clear", "args": ["reg"], "pattern": [{"xor": ["reg", "reg"]}]}
+    m_ltz = {"name": "@load_then_zero", "args": ["dst"], "pattern": [{"$and": [{"mov": ["rsi", "dst"]}, {"@zero": None, "reg": "%edx"}]}]}
+    m_zero = {"name": "@zero", "args": ["reg"], "pattern": [{"mov": [0, "reg"]}]}
+    trio = [m_clear, m_ltz, m_zero]
+    out.append([({"@clear": None, "reg": "%eax"}, {"xor": ["%eax", "%eax"]}, trio, [("@load_then_zero", "@zero")]),
+                ({"@load_then_zero": None, "dst": "%rdi"}, {"$and": [{"mov": ["rsi", "%rdi"]}, {"mov": [0, "%edx"]}]}, trio, [("@load_then_zero", "@zero")])])
     many = [{"name": f"@m{k:02d}", "pattern": f"op{k:02d}"} for k in range(12)]
     out.append([(f"@m{k:02d}", f"op{k:02d}", many, []) for k in range(12)])
     return out
@@ -182,7 +190,7 @@ def shards(tier):
 
 
 def build_lsets(h, tier):
-    return {"c13": e1.ListingSet(h, ALPHA, 2)}
+    return {"c13": e1.ListingSet(h, ALPHA, 3)}
 
 
 def compile_text(h, doc, files, name):
@@ -194,7 +202,33 @@ def compile_text(h, doc, files, name):
     return t1, t2
 
 
+def run_shared_library(h, res, known):
+    """One extra macro file that stays UNCHANGED on disk; its arg-less macro refers to a macro every rule defines itself.
+    Rules with different definitions are compiled one after the other in this process: each must equal its inlined form."""
+    lib = h.write("shared_lib.yaml", yaml.safe_dump({"macros": [{"name": "@wrap", "pattern": [{"$or": ["@inner", "ret"]}]},
+                                                               {"name": "@twice", "pattern": [{"$and": ["@inner", "@inner"]}]}]}, sort_keys=False))
+    for rnd in range(2):
+        for inner in ("mov", "push", "xor", {"mov": ["rax"]}, "mov"):
+            for use, inl in (("@wrap", {"$or": [inner, "ret"]}), ("@twice", {"$and": [inner, inner]})):
+                res.evaluations += 1
+                res.nontrivial += 1
+                imac = {"name": "@inner", "pattern": inner if isinstance(inner, str) else [inner]}
+                doc = make_rule_doc([use, "ret"], None, [imac])
+                inl_doc = make_rule_doc([copy.deepcopy(inl), "ret"])
+                try:
+                    t1, t2 = compile_text(h, doc, [lib], "shl.yaml")
+                    ti, _ = compile_text(h, inl_doc, None, "shl_inl.yaml")
+                except Exception as e:
+                    res.fail({"clause": "compile", "family": "sharedlib", "rule": doc, "inlined": inl_doc, "expected": "compiles", "observed": repr(e), "size": 1}, known)
+                    continue
+                if t1 != ti or t1 != t2:
+                    res.fail({"clause": "shared-library", "family": "sharedlib", "rule": doc, "inlined": inl_doc, "round": rnd,
+                              "expected": ti, "observed": t1, "size": 1}, known)
+
+
 def run_shard(shard, tier, h, res, known):
+    if shard["lo"] == 0:
+        run_shared_library(h, res, known)
     rules = all_rules(tier)
     ls = e1.get_lsets(h, tier, build_lsets)["c13"]
     for ri in range(shard["lo"], len(rules), shard["n"]):
@@ -248,6 +282,11 @@ def controls(h):
 
 
 def replay(case, h):
+    if case.get("family") == "sharedlib":
+        r = type("R", (), {"evaluations": 0, "nontrivial": 0, "fails": []})()
+        r.fail = lambda c, k: r.fails.append(c)
+        run_shared_library(h, r, set())
+        return bool(r.fails), str(r.fails)[:300]
     files = []
     for i, f in enumerate(case["macro_files"]):
         if f:
